@@ -13,6 +13,7 @@ From Coq Require Import NArith ZArith Lia List Bool Arith FMapPositive.
 From FatVerif Require Import Model.Base Model.Str Model.Slot Model.Time Model.Name Model.ShortName Model.DirSlots
   Spec.Image Spec.Abs Spec.Regions Model.VolDir Model.VolChainDir Model.Vol32Root Proofs.ImageProofs Proofs.NameProofs
   Proofs.ShortNameProofs Proofs.DirSlotsProofs Proofs.RegionsProofs Proofs.VolDirProofs Proofs.VolChainDirProofs.
+From FatVerif Require Model.FileM Model.VolSession Proofs.VolSessionProofs.
 From FatVerif Require Model.Lfn Spec.LfnSpec Spec.Wf Proofs.TimeProofs Proofs.LfnProofs.
 Import ListNotations.
 Open Scope N_scope.
@@ -694,4 +695,184 @@ Proof.
              - right. exists dv. repeat split; assumption. }
     cbn [abs_root32 v_root_issues v_labels v_root_chain v_geom].
     do 4 (split; [reflexivity|]). split; [exact Hframe|]. exists (c ++ ne :: d). exact Hok'.
+Qed.
+
+(* a failing rename that the model covers (any error but NotEnoughSpace: growth is outside this model) leaves the slots *)
+Lemma rename_in_dir_chained_failed_same upper oem cs ss src dst r ss' : len_N ss < 134217728 ->
+  rename_in_dir upper oem (Chained cs) 0 ss src dst = (r, ss') -> r <> Ok tt -> is_nospace r = false -> ss' = ss.
+Proof.
+  intros Hb H Hr Hns. unfold rename_in_dir, lift in H.
+  destruct (find_entry upper oem ss src None) as [ev| | |]; try (injection H as _ <-; reflexivity).
+  destruct (is_special ev); [injection H as _ <-; reflexivity|].
+  assert (forall a, rename_rewrite (Chained cs) 0 ss ev dst a = (r, ss') -> ss' = ss) as Hrw.
+  { intros a Ha. unfold rename_rewrite in Ha.
+    destruct (write_entry (Chained cs) 0 ss dst (renamed (entry_data ss ev) a)) as [w ss1] eqn:W.
+    destruct (write_entry_cases (Chained cs) 0 ss dst (renamed (entry_data ss ev) a) Hb)
+      as [(rg & s2 & C)|[(x & _ & C)|[(C & _)|(cs' & p & pre & mid & post & j & _ & _ & _ & _ & _ & _ & C)]]].
+    - rewrite C in W. injection W as <- _. cbn [lift] in Ha. injection Ha as <- _. exfalso. apply Hr. reflexivity.
+    - rewrite C in W. injection W as <- <-. destruct x; cbn [lift] in Ha; injection Ha as _ <-; reflexivity.
+    - discriminate C.
+    - rewrite C in W. injection W as <- _. cbn [lift] in Ha. injection Ha as <- _. discriminate Hns. }
+  destruct (check_for_existence upper oem ss dst None) as [[dv|a]| | |]; try (injection H as _ <-; reflexivity).
+  - destruct (negb (Lfn.ev_end ev =? Lfn.ev_end dv)); [injection H as _ <-; reflexivity|].
+    destruct (has_exact_name ev dst); [injection H as _ <-; reflexivity|].
+    destruct (other_match upper oem ss ev dst) as [[|]| | |]; try (injection H as _ <-; reflexivity). exact (Hrw _ H).
+  - exact (Hrw _ H).
+Qed.
+
+Theorem vol32_root_rename_failed_unchanged upper oem im l es ls src dst r im' :
+  root32_ok im l es ls -> vol32_root_rename upper oem im src dst = Some (r, im') -> r <> Ok tt ->
+  forall o, img_get im' o = img_get im o.
+Proof.
+  intros Hok H Hr o. set (g := parse_geom im) in *.
+  pose proof (fat32_slot_geom g (r32_geom _ _ _ _ Hok)) as Hsg. pose proof (root32_chain_ok im l es ls Hok) as Hl. fold g in Hl.
+  destruct (vol32_rename_inv upper oem im l src dst _ im' (r32_chain _ _ _ _ Hok) H) as (Hr' & Hns & -> & _). fold g in Hr' |- *.
+  destruct (rename_in_dir upper oem (Chained (cluster_slots g)) 0 (chain_dir_slots g im l) src dst) as [r0 ss'] eqn:E.
+  cbn [fst snd] in *. subst r0.
+  rewrite (rename_in_dir_chained_failed_same _ _ _ _ _ _ _ _ (chain_len_bound_sg g im l Hsg (r32_small _ _ _ _ Hok)) E Hr Hns).
+  apply put_chain_slots_same_sg; assumption.
+Qed.
+
+(* ================================================================ 5. the write-back of a file's entry in the root *)
+
+Import Model.FileM Model.VolSession.
+
+(* the record the library serialises (Model/VolSession.sess_entry) *)
+Lemma sess_entry_flushed g h k se b ed sz : h_entry h = Some ed -> ed_size ed = Some sz ->
+  sess_entry g h {| en_slot := k; en_data := se; en_tdirty := b |} = flushed_entry g se (ed_first ed) sz.
+Proof. intros H1 H2. unfold sess_entry, flushed_entry. rewrite H1. cbn [en_data]. rewrite H2. reflexivity. Qed.
+
+(* THE TWO FIRST-CLUSTER WORDS.  On FAT32 the record carries the first cluster in both words, whatever the slot held before:
+   a first cluster >= 0x10000 gets its high word; clearing the first cluster (truncate to 0) or lowering it below 0x10000 CLEARS
+   the high word.  On FAT12/16 the high word of the slot is left as it was (and ignored by every reader). *)
+Lemma flushed_entry_words32 g se fc sz : is32 g = true ->
+  let n := match fc with Some c => c | None => 0 end in
+  se_first_cluster_hi (flushed_entry g se fc sz) = (n / 65536) mod 65536 /\
+  se_first_cluster_lo (flushed_entry g se fc sz) = n mod 65536 /\ se_size (flushed_entry g se fc sz) = sz.
+Proof. intros H. unfold flushed_entry, sfn_set_size, sfn_set_first. rewrite H. cbn [se_first_cluster_hi se_first_cluster_lo se_size]. repeat split. Qed.
+
+Corollary flushed_entry_clears_high g se fc sz : is32 g = true ->
+  (fc = None \/ exists c, fc = Some c /\ c < 65536) -> se_first_cluster_hi (flushed_entry g se fc sz) = 0.
+Proof.
+  intros H Hc. destruct (flushed_entry_words32 g se fc sz H) as [-> _]. destruct Hc as [->|(c & -> & Hc)]; [reflexivity|].
+  rewrite (N.div_small c 65536 Hc). reflexivity.
+Qed.
+
+Lemma flushed_entry_words16 g se fc sz : is32 g = false ->
+  se_first_cluster_hi (flushed_entry g se fc sz) = se_first_cluster_hi se.
+Proof. intros H. unfold flushed_entry, sfn_set_size, sfn_set_first. rewrite H. reflexivity. Qed.
+
+Lemma is32_fat32 g : fat32_geom g -> is32 g = true.
+Proof. intros Hg. unfold is32. rewrite (f32_bits g Hg). reflexivity. Qed.
+
+Lemma words_join n : n < 4294967296 -> (n / 65536) mod 65536 * 65536 + n mod 65536 = n.
+Proof. intros H. lia. Qed.
+
+(* the decoded slot, field by field *)
+Lemma slot_decode_file_inv s se : slot_decode s = SFile se ->
+  se_name se = firstn 11 s /\ se_attrs se = byte_at s 11 mod 64.
+Proof.
+  unfold slot_decode. destruct (N.land (attrs_truncate (byte_at s 11)) ATTR_LFN =? ATTR_LFN); [discriminate|].
+  intros H. injection H as <-. cbn [se_name se_attrs]. unfold attrs_truncate. split; reflexivity.
+Qed.
+
+(* FLUSH of the entry of a file of the FAT32 root.  The root decodes to es1 ++ e :: es2 without issue; [e] is a plain file
+   whose short slot holds bytes (< 256) with sane attribute bits; the handle's editor holds the first cluster [ed_first] (a u32)
+   and the size [sz].  After the write-back the decoder finds the same entries, with [e] replaced by an entry [e'] of the same
+   names, attributes and slots whose first cluster - read from BOTH words - is the editor's (0 for None: both words zero) and
+   whose size is the editor's; its node is the file whose chain the decoder follows from that cluster in the (untouched) FAT;
+   every other node as before; only bytes of that one slot, inside the root chain, may have changed. *)
+Theorem vol32_root_flush_entry_decodes im l ls es1 e es2 h ed sz im' :
+  root32_ok im l (es1 ++ e :: es2) ls -> Forall (avoids l) (v_root (abs im)) ->
+  e_is_dir e = false -> e_is_dot e = false ->
+  bytes_ok (nth (N.to_nat (e_sfn_slot e)) (chain_dir_slots (parse_geom im) im l) []) ->
+  byte_at (nth (N.to_nat (e_sfn_slot e)) (chain_dir_slots (parse_geom im) im l) []) 11 < 64 ->
+  h_entry h = Some ed -> ed_size ed = Some sz -> sz < 4294967296 ->
+  (forall c, ed_first ed = Some c -> c < 4294967296) ->
+  vol32_root_flush_entry im (e_sfn_slot e) h = Some im' ->
+  exists e' se',
+    e_cluster e' = (match ed_first ed with Some c => c | None => 0 end) /\ e_size e' = sz /\
+    e_lfn e' = e_lfn e /\ e_lfn_ok e' = e_lfn_ok e /\ e_sfn e' = e_sfn e /\ e_attr e' = e_attr e /\
+    e_first_slot e' = e_first_slot e /\ e_sfn_slot e' = e_sfn_slot e /\
+    root32_ok im' l (es1 ++ e' :: es2) ls /\
+    nth (N.to_nat (e_sfn_slot e)) (chain_dir_slots (parse_geom im) im' l) [] = sfn_encode se' /\
+    se_first_cluster_hi se' = ((match ed_first ed with Some c => c | None => 0 end) / 65536) mod 65536 /\
+    se_first_cluster_lo se' = (match ed_first ed with Some c => c | None => 0 end) mod 65536 /\
+    v_root (abs im') = map (node_of (parse_geom im) im 23) es1
+                       ++ NFile e' (file_chain (parse_geom im) im e') (file_content (parse_geom im) im' e')
+                       :: map (node_of (parse_geom im) im 23) es2 /\
+    ((forall l', file_chain (parse_geom im) im e' = Some l' -> forall x, In x l' -> ~ In x l) ->
+     file_content (parse_geom im) im' e' = file_content (parse_geom im) im e') /\
+    v_labels (abs im') = v_labels (abs im) /\ v_root_issues (abs im') = [] /\ v_root_chain (abs im') = Some l /\
+    chain_frame im im' l /\
+    (forall o, img_get im' o <> img_get im o ->
+       exists i s j, (i < length l)%nat /\ (s < cluster_slots (parse_geom im))%nat /\ (j < 32)%nat /\
+         o = g_cluster_off (parse_geom im) (nth i l 0) + N.of_nat (32 * s + j) /\
+         (cluster_slots (parse_geom im) * i + s)%nat = N.to_nat (e_sfn_slot e)).
+Proof.
+  intros Hok Hav Hdir Hdot Hby H11 Hh Hsz Hszb Hfc H. set (g := parse_geom im) in *.
+  pose proof (r32_geom _ _ _ _ Hok) as Hg. fold g in Hg. pose proof (fat32_slot_geom g Hg) as Hsg.
+  pose proof (root32_chain_ok im l _ ls Hok) as Hl. fold g in Hl.
+  pose proof (r32_scan _ _ _ _ Hok) as Hscan. fold g in Hscan.
+  unfold vol32_root_flush_entry in H. rewrite (r32_chain _ _ _ _ Hok) in H. cbv zeta in H. fold g in H.
+  destruct (VolSessionProofs.dir_scan_rewrite true _ 0 [] _ _ _ Hscan es1 e es2 eq_refl) as (k & pk & Hk & Hslot & He & Hrw).
+  assert (N.to_nat (e_sfn_slot e) = k) as Hkk by lia. rewrite Hkk in *.
+  set (ss := chain_dir_slots g im l) in *. set (s := nth k ss []) in *.
+  destruct (slot_decode s) as [se|le] eqn:Hdec; [|discriminate]. injection H as <-.
+  rewrite (sess_entry_flushed g h _ se false ed sz Hh Hsz).
+  set (se' := flushed_entry g se (ed_first ed) sz). set (n := match ed_first ed with Some c => c | None => 0 end) in *.
+  pose proof (proj1 (chain_dir_shape_sg g im l Hsg)) as Hsh0. fold ss in Hsh0.
+  assert (length s = 32%nat) as Hs32.
+  { destruct Hsh0 as [_ S2]. rewrite Forall_forall in S2. apply S2. apply nth_In. exact Hk. }
+  destruct (slot_decode_file_inv s se Hdec) as [Dn Da]. rewrite (N.mod_small _ _ H11) in Da.
+  assert (length (se_name se) = 11%nat) as Ln by (rewrite Dn, firstn_length; lia).
+  destruct (flushed_entry_words32 g se (ed_first ed) sz (is32_fat32 g Hg)) as (Whi & Wlo & Wsz). fold se' n in Whi, Wlo, Wsz.
+  assert (se_name se' = se_name se /\ se_attrs se' = se_attrs se) as [Nn Na] by (split; reflexivity).
+  assert (n < 4294967296) as Hn by (unfold n; destruct (ed_first ed) as [c|]; [apply Hfc; reflexivity|lia]).
+  assert (sfn_fields_ok se') as Hfo.
+  { pose proof (decoded_fields_ok s se Hby Hdec (se_name se) Ln) as [f1 f2 f3 f4 f5 f6 f7 f8 f9 f10 f11 f12].
+    cbn [renamed se_name se_attrs se_reserved_0 se_create_time_0 se_create_time_1 se_create_date se_access_date
+         se_first_cluster_hi se_modify_time se_modify_date se_first_cluster_lo se_size] in *.
+    constructor; try assumption; try (rewrite Whi; lia); try (rewrite Wlo; lia); try (rewrite Wsz; exact Hszb). }
+  assert (firstn 12 (sfn_encode se') = firstn 12 s) as Hf12.
+  { destruct (VolSessionProofs.sfn_encode_readback se' ltac:(rewrite Nn; exact Ln)) as (R1 & _). cbv zeta in R1.
+    rewrite R1, Nn, Na, Dn, Da. symmetry. apply VolSessionProofs.firstn_12_split. exact Hs32. }
+  pose proof (Hrw (sfn_encode se') Hf12) as Hscan'. fold ss in Hscan'.
+  assert (len32 (sfn_encode se')) as Hl32.
+  { destruct (VolSessionProofs.sfn_encode_readback se' ltac:(rewrite Nn; exact Ln)) as (_ & _ & _ & R4). exact R4. }
+  pose proof (set_nth_shape _ _ Hl32 ss k Hsh0) as Hsh.
+  set (e' := mk_entry pk (sfn_encode se') (0 + N.of_nat k) true) in *.
+  destruct (abs_put_root32 im l _ ls _ (es1 ++ e' :: es2) ls Hok Hsh Hscan') as (Hframe & Hok' & Habs'). fold g in Hframe, Habs'.
+  set (im' := put_chain_slots g im l (set_nth k (sfn_encode se') ss)) in *.
+  destruct (mk_entry_fields pk se' (0 + N.of_nat k) true Hfo) as (_ & _ & _ & _ & _ & _ & _ & _ & _ & Fc & Fs & _). cbv zeta in Fc, Fs.
+  fold e' in Fc, Fs.
+  destruct (VolSessionProofs.mk_entry_same_id pk s (sfn_encode se') (0 + N.of_nat k) true Hf12) as (I1 & I2 & I3 & I4 & I5 & I6).
+  cbv zeta in I1, I2, I3, I4, I5, I6. fold e' in I1, I2, I3, I4, I5, I6. rewrite <- He in I1, I2, I3, I4, I5, I6.
+  exists e', se'.
+  split; [rewrite Fc, Whi, Wlo; exact (words_join n Hn)|]. split; [rewrite Fs; exact Wsz|].
+  do 6 (split; [assumption|]). split; [exact Hok'|].
+  split. { unfold im'. rewrite (chain_dir_put_sg g im l _ Hsg Hl Hsh). rewrite VolSessionProofs.nth_set_nth by exact Hk. rewrite Nat.eqb_refl. reflexivity. }
+  split; [exact Whi|]. split; [exact Wlo|].
+  pose proof (root32_abs im l _ ls Hok) as Habs. fold g in Habs.
+  rewrite Habs in Hav |- *. rewrite Habs'. rewrite v_root_abs_root32 in Hav. rewrite !v_root_abs_root32.
+  rewrite map_app in Hav. cbn [map] in Hav. apply Forall_app in Hav. destruct Hav as [Hav1 Hav2]. pose proof (Forall_inv_tail Hav2) as Hav3.
+  pose proof (root32_nodes_kept im im' l es1 Hg Hl Hframe Hav1) as K1. pose proof (root32_nodes_kept im im' l es2 Hg Hl Hframe Hav3) as K2.
+  fold g in K1, K2.
+  destruct (chain_frame_reads32 im im' l Hsg Hl Hframe) as [Hbelow Hother]. fold g in Hbelow, Hother.
+  assert (e_is_dot e' = false) as Hdot' by (unfold e_is_dot in *; rewrite I3; exact Hdot).
+  assert (e_is_dir e' = false) as Hdir' by (unfold e_is_dir in *; rewrite I4; exact Hdir).
+  assert (file_chain g im' e' = file_chain g im e') as Hfc'
+    by (unfold file_chain; rewrite (chain_from_below32 g im im' Hg Hbelow); reflexivity).
+  split.
+  { rewrite map_app. cbn [map]. rewrite K1, K2, (node_of_file g im' 23 e' Hdot' Hdir'), Hfc'. reflexivity. }
+  split.
+  { intros Havd. unfold file_content. rewrite Hfc'. destruct (file_chain g im e') as [l'|] eqn:Efc; [|reflexivity].
+    rewrite (chain_bytes_avoid g l im im' l' Hother); [reflexivity| |exact (Havd l' eq_refl)].
+    unfold file_chain in Efc. destruct (e_cluster e' =? 0); [discriminate|]. exact (chain_from_ge2 g im _ _ _ Efc). }
+  cbn [abs_root32 v_labels v_root_issues v_root_chain].
+  do 3 (split; [reflexivity|]). split; [exact Hframe|].
+  intros o Hne. destruct (put_chain_slots_changes_sg g im l _ o Hsg Hl Hsh Hne) as (i & s0 & j & Hi & Hs0 & Hj & Ho & Hd).
+  exists i, s0, j. do 4 (split; [assumption|]). fold ss in Hd.
+  destruct (Nat.eq_dec (cluster_slots g * i + s0) k) as [E|E]; [exact E|]. exfalso. apply Hd.
+  rewrite VolSessionProofs.nth_set_nth by exact Hk. apply Nat.eqb_neq in E. rewrite E. reflexivity.
 Qed.
